@@ -108,6 +108,11 @@ func (s *c04State) newUTXO(owner int) *c04UTXO {
 		// P2PKH-inscription locking script
 		ct := []byte("text/plain")
 		data := c.Bytes(1 + c.Choose(20))
+		if c.Bool(1, 12) {
+			// an inscription payload that needs a 4-byte push length (>= 65536 bytes)
+			data = fillBytes(c, 65536+c.Choose(3000))
+			c.Count("probe.inscription_over_64k", 1)
+		}
 		sc := append([]byte(nil), u.script...)
 		sc = append(sc, 0x00, 0x63, 0x03, 0x6f, 0x72, 0x64, 0x51)
 		sc = append(sc, pushOf(ct)...)
@@ -357,6 +362,11 @@ func (w *c04World) Run(c *kernel.RunCtx) {
 	if c.Bool(1, 2) {
 		s.engine = interpreter.NewEngine()
 		c.Count("probe.engine_reused_across_verifications", 1)
+		if c.Bool(1, 2) {
+			// the engine already served a caller that evaluates bare scripts (no transaction context)
+			one := scriptPtr([]byte{0x51})
+			_ = catch(func() { _ = s.engine.Execute(interpreter.WithScripts(one, one), interpreter.WithAfterGenesis()) })
+		}
 	}
 	if c.Bool(1, 2) {
 		s.simple = &unlocker.Simple{}
